@@ -706,7 +706,28 @@ type = "udp"
 localIP = "127.0.0.1"
 localPort = 9
 remotePort = 6001
-`, blk.Port(0), fx.Token, blk.Port(fx.SlotAdmin))
+
+[[proxies]]
+name = "pp1"
+type = "tcp"
+localIP = "127.0.0.1"
+localPort = %d
+remotePort = 6002
+transport.proxyProtocolVersion = "v2"
+`, blk.Port(0), fx.Token, blk.Port(fx.SlotAdmin), blk.Port(fx.SlotExtra))
+	// the local service of pp1 accepts and discards
+	if lsvc, e := net.Listen("tcp", fmt.Sprintf("127.0.0.1:%d", blk.Port(fx.SlotExtra))); e == nil {
+		defer lsvc.Close()
+		go func() {
+			for {
+				c2, e := lsvc.Accept()
+				if e != nil {
+					return
+				}
+				go func() { _, _ = io.Copy(io.Discard, c2); c2.Close() }()
+			}
+		}()
+	}
 	ch, err := startChild(frpcBin, conf)
 	if err != nil {
 		return fx.Inconclusive("start frpc: %v", err)
